@@ -154,6 +154,7 @@ Fixpoint view (s : st) : kvmap :=
   | Flu o u => merge_overlay o (view u)
   | Tab p u => kv_table_view p (view u)
   | Syn u => view u
+  | Lzy o i u => merge_overlay o (if i then view u else [])
   end.
 
 Fixpoint wf_st (s : st) : Prop :=
@@ -163,32 +164,38 @@ Fixpoint wf_st (s : st) : Prop :=
   | Flu o u => sm_sorted o /\ kwf o /\ wf_st u
   | Tab p u => wf_bytes p = true /\ wf_st u
   | Syn u => wf_st u
+  | Lzy o _ u => sm_sorted o /\ kwf o /\ wf_st u
   end.
 
 Lemma view_sorted s : wf_st s -> sm_sorted (view s).
 Proof.
-  induction s as [e m|o|o u IH|p u IH|u IH]; cbn; intros W.
+  induction s as [e m|o|o u IH|p u IH|u IH|o i u IH]; cbn; intros W.
   - tauto.
   - now apply merge_overlay_sorted.
   - apply merge_overlay_sorted, IH. tauto.
   - apply tv_sorted, IH. tauto.
   - auto.
+  - apply merge_overlay_sorted. destruct i; [apply IH; tauto|exact I].
 Qed.
 
 Theorem st_get_view s k : wf_st s -> st_get s k = kv_get (view s) k.
 Proof.
-  unfold kv_get. revert k. induction s as [e m|o|o u IH|p u IH|u IH]; cbn; intros k W.
+  unfold kv_get. revert k. induction s as [e m|o|o u IH|p u IH|u IH|o i u IH]; cbn; intros k W.
   - reflexivity.
   - rewrite sm_get_merge_overlay by (cbn; auto). reflexivity.
   - destruct W as (So & _ & Wu). rewrite sm_get_merge_overlay by auto using view_sorted.
     unfold flu_get, ov_lookup. now rewrite IH.
   - destruct W as (_ & Wu). rewrite tv_get by auto using view_sorted. now apply IH.
   - auto.
+  - destruct W as (So & _ & Wu). destruct i.
+    + rewrite sm_get_merge_overlay by auto using view_sorted.
+      unfold flu_get, ov_lookup. now rewrite IH.
+    + rewrite sm_get_merge_overlay by (cbn; auto). reflexivity.
 Qed.
 
 Theorem st_has_view s k : wf_st s -> st_has s k = kv_has (view s) k.
 Proof.
-  unfold kv_has. revert k. induction s as [e m|o|o u IH|p u IH|u IH]; cbn; intros k W.
+  unfold kv_has. revert k. induction s as [e m|o|o u IH|p u IH|u IH|o i u IH]; cbn; intros k W.
   - reflexivity.
   - rewrite sm_get_merge_overlay by (cbn; auto). unfold flu_has, ov_lookup.
     destruct (sm_get o k) as [[v|]|]; reflexivity.
@@ -197,12 +204,18 @@ Proof.
     destruct (sm_get o k) as [[v|]|]; reflexivity.
   - destruct W as (_ & Wu). rewrite tv_get by auto using view_sorted. now apply IH.
   - auto.
+  - destruct W as (So & _ & Wu). destruct i.
+    + rewrite sm_get_merge_overlay by auto using view_sorted.
+      unfold flu_has, ov_lookup. rewrite IH by auto.
+      destruct (sm_get o k) as [[v|]|]; reflexivity.
+    + rewrite sm_get_merge_overlay by (cbn; auto). unfold flu_has, ov_lookup.
+      destruct (sm_get o k) as [[v|]|]; reflexivity.
 Qed.
 
 Theorem st_iter_view s P S : wf_st s -> wf_bytes (ob P) = true ->
   st_iter s P S = kv_iterate (view s) (ob P) (ob S).
 Proof.
-  revert P S. induction s as [e m|o|o u IH|p u IH|u IH]; cbn [st_iter view wf_st]; intros P S W WP.
+  revert P S. induction s as [e m|o|o u IH|p u IH|u IH|o i u IH]; cbn [st_iter view wf_st]; intros P S W WP.
   - destruct W as [Sm Wm]. now apply eng_iter_spec.
   - change (@nil (key * val)) with (kv_iterate [] (ob P) (ob S)) at 1.
     apply flu_iterate_spec; cbn; auto.
@@ -212,4 +225,8 @@ Proof.
     + cbn [ob]. unfold prefixed. apply tv_iterate.
     + cbn [ob]. unfold prefixed. rewrite wf_bytes_app, Wp, WP. reflexivity.
   - auto.
+  - destruct W as (So & _ & Wu). destruct i.
+    + rewrite IH by auto. apply flu_iterate_spec; auto using view_sorted.
+    + change (@nil (key * val)) with (kv_iterate [] (ob P) (ob S)) at 1.
+      apply flu_iterate_spec; cbn; auto.
 Qed.
